@@ -7,7 +7,11 @@
 (*                                                                         *)
 (* A definition:  [tns, bindingStyle, ops |-> Seq(Op), location, transport] *)
 (* An operation:  [name, style ("" = inherit the binding's), parts          *)
-(*                 ("element" | "type"), action, header, fault]             *)
+(*                 ("element" | "type"), action, header, fault,             *)
+(*                 nparts (rpc: 1 or 2 simple parts), complexPart (rpc: one *)
+(*                 more part of a complex type)]                            *)
+(* d.types: "inline" | "imported" (the schema of wsdl:types lives in a      *)
+(*                 file of its own, reached by xsd:import)                  *)
 (***************************************************************************)
 EXTENDS Naturals, Sequences, SequencesExt, FiniteSets, TLC
 
@@ -27,8 +31,11 @@ Leaf(ns, local, text) == [name |-> <<ns, local>>, text |-> text, kids |-> <<>>]
 Node(ns, local, kids) == [name |-> <<ns, local>>, text |-> "", kids |-> kids]
 RequestBody(d, o) ==
   IF EffStyle(d, o) = "rpc"
-  THEN \* the operation wrapper in the soap:body namespace, part accessors unqualified
-       Node(d.tns, o.name, << Leaf("", "a", "7") >>)
+  THEN \* the operation wrapper in the soap:body namespace, one accessor per message part in part order,
+       \* accessors unqualified; a part of a complex type holds that type's (qualified) local elements
+       Node(d.tns, o.name, << Leaf("", "a", "7") >>
+                           \o (IF o.nparts = 2 THEN << Leaf("", "b", "s") >> ELSE <<>>)
+                           \o (IF o.complexPart THEN << Node("", "c", << Leaf(d.tns, "x", "7"), Leaf(d.tns, "y", "s") >>) >> ELSE <<>>))
   ELSE \* document/literal: the part's element itself
        Node(d.tns, o.name \o "Request", << Leaf(d.tns, "a", "7") >>)
 RequestEnvelope(d, o) ==
